@@ -126,7 +126,7 @@ def load_known(pid):
         return []
     with open(KNOWN) as f:
         data = json.load(f)
-    return [k for k in data.get('findings', []) if k.get('property') == pid]
+    return [k for k in data.get('findings', []) if k.get('property') in (pid, '*')]
 
 
 def match_known(known, sig):
